@@ -21,10 +21,11 @@ import (
 // all four locations at path and operation level with overrides and decoys, random option combinations.
 
 type c07param struct {
-	in, name string
-	required bool
-	kind     string // "integer" | "pattern"
-	dflt     bool   // the schema carries a default (an absent required parameter is missing all the same)
+	in, name  string
+	required  bool
+	kind      string // "integer" | "pattern"
+	dflt      bool   // the schema carries a default (an absent required parameter is missing all the same)
+	byContent bool   // defined by content (application/json) instead of schema + style
 }
 
 func (p c07param) key() string { return p.in + ":" + p.name }
@@ -38,6 +39,11 @@ func (p c07param) json() gen.S {
 		s["default"] = map[string]any{"integer": 5.0, "pattern": "x"}[p.kind]
 	}
 	out := gen.S{"name": p.name, "in": p.in, "schema": s}
+	if p.byContent {
+		// the same integer schema, given through "content" instead of "schema" (decoded as JSON)
+		delete(s, "default")
+		out = gen.S{"name": p.name, "in": p.in, "content": gen.S{"application/json": gen.S{"schema": s}}}
+	}
 	if p.required || p.in == "path" {
 		out["required"] = true
 	}
@@ -141,7 +147,11 @@ func runC07Random(c *core.Ctx, idx *int) {
 			for _, in := range locs {
 				for _, name := range []string{"p", "q"} {
 					if r.Float64() < p {
-						out = append(out, c07param{in: in, name: name, required: r.Intn(2) == 0, kind: kind, dflt: r.Intn(4) == 0})
+						cp := c07param{in: in, name: name, required: r.Intn(2) == 0, kind: kind, dflt: r.Intn(4) == 0}
+						if kind == "integer" && r.Intn(5) == 0 {
+							cp.byContent, cp.dflt = true, false
+						}
+						out = append(out, cp)
 					}
 				}
 			}
@@ -306,7 +316,7 @@ func runC07Random(c *core.Ctx, idx *int) {
 				v := q.vals[key]
 				if v == "EMPTY" {
 					// an empty value is not an integer and allowEmptyValue is not set; for strings and for schemas with a default the reading differs: no verdict
-					if p.kind == "integer" && !p.dflt {
+					if p.kind == "integer" && !p.dflt && !p.byContent {
 						want["param:"+key] = true
 						continue
 					}
